@@ -694,7 +694,16 @@ func (w *idxWriter) Commit(ctx context.Context) (telem.TimeStamp, error) {
 	}
 	// because the range is exclusive, we need to add 1 nanosecond to the end
 	end.Lower++
-	for _, chW := range w.internal {
+	// The index channel is committed (and its pointer persisted) before the channels it
+	// indexes: a data channel pointer that reaches the disk ahead of the index samples
+	// it refers to is unreadable after a crash.
+	if idxW, ok := w.internal[w.idx.ch.Key]; ok {
+		err = errors.Join(err, idxW.CommitWithEnd(ctx, end.Lower))
+	}
+	for key, chW := range w.internal {
+		if key == w.idx.ch.Key {
+			continue
+		}
 		err = errors.Join(err, chW.CommitWithEnd(ctx, end.Lower))
 	}
 	if err == nil {
@@ -714,12 +723,22 @@ func (w *idxWriter) Close() (ControlUpdate, error) {
 	update := ControlUpdate{
 		Transfers: make([]control.Transfer, 0, len(w.internal)),
 	}
-	for _, uWriter := range w.internal {
+	closeOne := func(uWriter *unaryWriterState) {
 		transfer, closeErr := uWriter.Close()
 		if closeErr != nil {
 			err = errors.Join(err, closeErr)
 		} else if transfer.Occurred() {
 			update.Transfers = append(update.Transfers, transfer)
+		}
+	}
+	// Closing a writer persists its index file; the index channel goes first for the
+	// same reason as in Commit.
+	if idxW, ok := w.internal[w.idx.ch.Key]; ok {
+		closeOne(idxW)
+	}
+	for key, uWriter := range w.internal {
+		if key != w.idx.ch.Key {
+			closeOne(uWriter)
 		}
 	}
 	return update, err
